@@ -318,15 +318,11 @@ func (f *FileManager) putTo(ctx context.Context, b *posinfo.FilestoreNode, to pu
 			return ErrFilestoreNotEnabled
 		}
 
-		//nolint:staticcheck
-		//lint:ignore SA1019 // ignore staticcheck
-		if !filepath.HasPrefix(b.PosInfo.FullPath, f.root) {
-			return fmt.Errorf("cannot add filestore references outside ipfs root (%s)", f.root)
-		}
-
+		// The file must be inside the root by path components. A common
+		// string prefix is not enough: "/root-other/f" is not inside "/root".
 		p, err := filepath.Rel(f.root, b.PosInfo.FullPath)
-		if err != nil {
-			return err
+		if err != nil || !filepath.IsLocal(p) {
+			return fmt.Errorf("cannot add filestore references outside ipfs root (%s)", f.root)
 		}
 
 		ps := filepath.ToSlash(p)
